@@ -6,4 +6,6 @@ export CARGO_NET_OFFLINE=true
 python3 tools/gen_lean.py /repo lean/WtVerif/Generated
 (cd lean && lake build WtVerif wtdriver)
 [ -f harness/Cargo.lock ] || cp /repo/Cargo.lock harness/Cargo.lock
-(cd harness && RUSTFLAGS="--cfg wtransport_verif" cargo build --offline --bins && RUSTFLAGS="--cfg wtransport_verif" cargo build --offline --bins --release)
+export RUSTFLAGS="--cfg wtransport_verif"
+(cd harness && cargo build --offline --bin codec && cargo build --offline --release --bin codec)
+(cd harness && cargo build --offline --bin e2e)
